@@ -923,6 +923,44 @@ def desugar_mut_self(toks, fn_name, log):
     return relex(toks)
 
 
+def desugar_ctor_fn_value(toks, log):
+    """R18b: an enum constructor used as a function value in `.map(Enum::Variant)` / `.map_err(Enum::Variant)` (Verus does not support constructors as function values)
+    is written as the closure it denotes, annotated with what it returns: `.map(|__cN| -> (__oN: Enum) ensures __oN == Enum::Variant(__cN) { Enum::Variant(__cN) })`.
+    Applied after the template's own substitutions, to whatever such uses are left (so neither spelling needs an anchor)."""
+    toks = list(toks)
+    n = 0
+    k = 0
+    while k < len(toks):
+        t = toks[k]
+        if t.kind == 'ident' and t.text in ('map', 'map_err'):
+            d = _prev_sig(toks, k)
+            op = _next_sig(toks, k)
+            if d is not None and op is not None and _is(toks[d], 'punct', '.') and _is(toks[op], 'punct', '('):
+                cl = match_close(toks, op)
+                inner = [u for u in toks[op + 1:cl] if u.kind not in ('ws', 'comment')]
+                # Ident (:: Ident)+ , all idents, first and last capitalised
+                ok = len(inner) >= 4 and len(inner) % 3 == 1
+                if ok:
+                    for q, u in enumerate(inner):
+                        if q % 3 == 0:
+                            ok = ok and u.kind == 'ident'
+                        else:
+                            ok = ok and u.kind == 'punct' and u.text == ':'
+                    ok = ok and inner[0].text[:1].isupper() and inner[-1].text[:1].isupper() and inner[-1].text not in ('Some', 'Ok', 'Err')
+                if ok:
+                    path = ''.join(u.text for u in inner)
+                    ety = ''.join(u.text for u in inner[:-3])
+                    new = '(|__c%d| -> (__o%d: %s) ensures __o%d == %s(__c%d) { %s(__c%d) })' % (n, n, ety, n, path, n, path, n)
+                    log.append(('R18b', 'constructor %s used as a function value written as the closure it denotes' % path, t.line))
+                    toks = toks[:op] + [Tok('subst', new, toks[op].pos, toks[op].line)] + toks[cl + 1:]
+                    toks = relex(toks)
+                    n += 1
+                    k = 0
+                    continue
+        k += 1
+    return toks
+
+
 def desugar_get_or_insert_with(toks, log):
     """R19c: a statement `PLACE.get_or_insert_with(|| EXPR);` (result unused; this vstd has no specification for it) is written as the definition std gives it:
     `if PLACE.is_none() { PLACE = Some(EXPR); }`. Any other use (the returned reference is used, a closure with parameters) is left alone and stays outside the subset."""
